@@ -140,6 +140,7 @@ class Fn:
         if rt != 'void' and self.ret_t is None:
             raise Unsupported('%s: return type %s' % (self.name, rt))
         self.outs = [p[0] for p in self.params if p[1] in ('outparam', 'buf')]
+        self.alias = {}    # local pointer variables initialised from a pointer parameter
         self.kinds = {p[0]: p[1] for p in self.params}
         self.ptypes = {p[0]: p[2] for p in self.params}
 
@@ -277,7 +278,8 @@ class Fn:
         if n['kind'] == 'ImplicitCastExpr' and n['castKind'] == 'LValueToRValue':
             n = self.unparen(n['inner'][0])
         if n['kind'] == 'DeclRefExpr':
-            return n['referencedDecl']['name']
+            nm = n['referencedDecl']['name']
+            return self.alias.get(nm, nm)
         raise Unsupported('%s: pointer expression %s' % (self.name, n['kind']))
 
     def e_ArraySubscriptExpr(self, n):
@@ -646,6 +648,10 @@ class Fn:
                 if d['kind'] != 'VarDecl':
                     raise Unsupported('%s: decl %s' % (self.name, d['kind']))
                 init = [c for c in d.get('inner', []) if c.get('kind')]
+                if init and d['type']['qualType'].strip().endswith('*'):
+                    # T *p = <pointer parameter>;  p is another name for that buffer
+                    self.alias[d['name']] = self.ptr_name(init[0])
+                    continue
                 if init:
                     p, e = self.expr(init[0])
                     pres += p + [('let', d['name'], e.txt)]
